@@ -25,17 +25,20 @@ MANIFEST = dict(
     text="proof (partial). No theorem can exhibit a Rust panic, stack overflow or hang of the real interpreter; the "
          "claim for arbitrary text rests on an exploration (grammar-generated programs, mutations of examples/ and "
          "modules/, extreme literals, operator runs, deep nesting, random Unicode) run through interpret + diagnostic "
-         "rendering under catch_unwind and a watchdog in child processes, in the checked (dev) profile. Machine-checked "
-         "(Coq) only for the modelled arithmetic cores (Ratio<i128> mul/add with lcm, DType::power/try_power, "
-         "multiply/try_multiply/canonicalize, UnitFactor::power, factor merging): the checked paths never panic for any "
-         "factors and exponents (C08_checked_paths_total); the unchecked operations are the checked ones with 'overflow' "
-         "turned into a panic, i.e. they panic exactly where the checked ones report an error and agree otherwise "
-         "(C08_unchecked_is_checked_plus_panic, C08_ratio_ops, C08_checked_mul_in_range); the factorial loop terminates "
-         "for every order >= 1 (C08_factorial_terminates); one kernel-computed witness per open arithmetic finding "
-         "(C08_power_overflow_refuted: 1e30*1e30, 2*2^126, 2^126+2^126; C08_lcm_overflow_refuted: lcm(2^100,3^70); "
-         "C08_factorial_truncation_refuted: 65536 `!` -> order 0; C08_comparison_nan_refuted: inf/inf = NaN on primitive "
-         "floats). Seven classes of crashing inputs are OPEN findings (known_findings.json), nine further defects found by "
-         "this exploration were fixed in numbat.",
+         "rendering under catch_unwind and a watchdog in child processes, in the checked (dev) profile (thorough tier: also a "
+         "release build), single inputs and sequences of inputs on one session. Machine-checked (Coq) only for the modelled "
+         "arithmetic cores (Ratio<i128> mul/add with lcm, DType::power/try_power, multiply/try_multiply/canonicalize, "
+         "UnitFactor::power, factor merging, the guarded run-time paths): the checked paths never panic for any factors and "
+         "exponents (C08_checked_paths_total); since the phase-4 repairs the run-time paths only run the unchecked operations "
+         "after the checked ones succeeded, and then they cannot panic either (C08_guarded_paths_total, for well-formed "
+         "exponents); the parser never hands a truncated factorial order to the VM (C08_factorial_order_exact); the unchecked "
+         "operations are the checked ones with 'overflow' turned into a panic (C08_unchecked_is_checked_plus_panic, "
+         "C08_ratio_ops, C08_checked_mul_in_range); the factorial loop terminates for every order >= 1 "
+         "(C08_factorial_terminates); kernel-computed witnesses of what the unchecked operations do "
+         "(C08_power_overflow_refuted, C08_lcm_overflow_refuted, C08_factorial_truncation_refuted, "
+         "C08_comparison_nan_refuted on primitive floats). Two classes of crashing inputs remain OPEN findings (NaN "
+         "comparison after an overflowing conversion; stack overflow on operator chains of more than ~5000 terms), "
+         "the other defects found by this exploration (18 findings) were fixed in numbat.",
     design_ref="DESIGN.md §6 C08, §7 #4-#7; design/misc.md",
     note="Trusted: Coq kernel; Overflow/Model.v as a description of num-rational 0.4.2 and math.rs; the exploration "
          "harness (harness/src/crash.rs). An exploration finding nothing is not a proof of absence.",
